@@ -20,7 +20,7 @@ KidN(n) == <<GoInt("int64", 4), GoBytes([i \in 1..n |-> 48 + (i % 10)])>>
 NestedMap == [t |-> "map", ps |-> <<<<GoInt("int64", 2), GoStr(<<120>>)>>, <<GoInt("int64", 1), [t |-> "arr", xs |-> <<[t |-> "bool", v |-> TRUE], GoNeg("int64", 99)>>]>>>>]
 \* protected / unprotected shapes; id 1 leaves alg out (the signer's algorithm is inserted by Sign)
 HdrP(id, alg) ==
-  CASE id = 1 -> <<>>
+  CASE id \in {1, 8} -> <<>>
     [] id = 2 -> <<<<GoInt("int64", 1), AlgV(alg)>>>>
     [] id = 3 -> <<<<GoInt("int", 1), [t |-> "int64", neg |-> TRUE, a |-> NatToArg(0 - 1 - alg)]>>, KidN(3), <<GoInt("int64", 2), [t |-> "arr", xs |-> <<GoInt("int64", 4)>>]>>,
                    <<GoInt("int64", 3), GoStr(<<97, 47, 98>>)>>>>
@@ -29,7 +29,7 @@ HdrP(id, alg) ==
     [] id = 6 -> <<<<GoInt("int64", 1), AlgV(alg)>>, KidN(250)>>                \* 256 bytes
     [] id = 7 -> <<<<GoInt("int64", 1), AlgV(alg)>>>> \o [i \in 1..30 |-> <<(IF i % 2 = 0 THEN GoInt("int16", 100 + i) ELSE GoNeg("int64", 200 + i)), GoInt("int64", i)>>]   \* dozens of entries
 HdrU(id) ==
-  CASE id \in {1, 2, 5} -> <<>>
+  CASE id \in {1, 2, 5, 8} -> <<>>
     [] id = 3 -> <<<<GoInt("int64", 5), GoBytes(<<1, 2, 3>>)>>, <<GoStr(<<117>>), NestedMap>>>>
     [] id \in {4, 6} -> <<<<GoInt("int64", 4), GoBytes(<<49>>)>>>>
     [] id = 7 -> [i \in 1..26 |-> <<GoStr(<<97 + (i % 26), 48 + (i % 10)>>), GoBytes(<<i>>)>>]
@@ -41,8 +41,11 @@ S(alg, kk) == [kind |-> kk, name |-> "s", alg |-> alg, fault |-> ""]
 V(alg, kk) == [kind |-> (IF kk = "cosekey" THEN "cosekey" ELSE "builtin"), name |-> "v", alg |-> alg, fault |-> ""]
 Dummy == <<170, 187>>
 
+\* header shape 8: both maps nil (the zero value of Headers), as callers of the Sign1 helpers commonly pass
+NilMaps == [Pnil |-> TRUE, Unil |-> TRUE]
 Msg(P, U, pay) == [P |-> P, U |-> U, payload |-> pay, sig |-> <<>>]
 Lay(P, U) == [P |-> P, U |-> U, sig |-> <<>>]
+MaybeNil(m, h) == IF h = 8 THEN m @@ NilMaps ELSE m
 
 MsgProg(kind, P, U, pay, alg, kk, x) ==
   << [op |-> "new", obj |-> "m", kind |-> kind, m |-> Msg(P, U, pay)],
@@ -82,7 +85,7 @@ SignProg(P, U, pay, algs, x) ==
      [op |-> "unmarshal", obj |-> "m3", kind |-> "sign", buf |-> "b2"],
      [op |-> "verify", obj |-> "m3", verifiers |-> vs] @@ x >>
 SigAloneProg(P, U, pay, alg, kk, x) ==
-  LET bp == <<67, 161, 3, 0>> IN
+  LET bp == IF Len(pay) % 2 = 0 THEN <<67, 161, 3, 0>> ELSE <<89, 0, 3, 161, 3, 0>> IN
   << [op |-> "new", obj |-> "m", kind |-> "sig", m |-> Lay(P, U)],
      [op |-> "sign", obj |-> "m", signers |-> <<S(alg, kk)>>, bodyprot |-> bp, payload |-> pay] @@ x,
      [op |-> "verify", obj |-> "m", verifiers |-> <<V(alg, kk)>>, bodyprot |-> bp, payload |-> pay] @@ x,
@@ -122,13 +125,15 @@ CsListProg(pk, form, label, P, U, pay, alg, kk, x) ==
      [op |-> "countersign", obj |-> "cs1", parent |-> "par", form |-> form, signers |-> <<S(alg, kk)>>] @@ x,
      [op |-> "new", obj |-> "cs2", kind |-> "csig", m |-> Lay(HdrP(3, alg2), <<>>)],
      [op |-> "countersign", obj |-> "cs2", parent |-> "par", form |-> form, signers |-> <<S(alg2, "builtin")>>] @@ x,
-     [op |-> "attachcs", obj |-> "par", label |-> label, css |-> <<"cs1", "cs2">>],
+     [op |-> "attachcs", obj |-> "par", label |-> label, css |-> <<"cs1", "cs2", "cs1">>],
      [op |-> "marshal", obj |-> "par", buf |-> "p1"],
      [op |-> "unmarshal", obj |-> "par2", kind |-> pk, buf |-> "p1"],
      [op |-> "extractcs", obj |-> "c0", from |-> "par2", label |-> label, index |-> 0],
      [op |-> "verifycs", obj |-> "c0", parent |-> "par2", form |-> form, verifiers |-> <<V(alg, kk)>>] @@ x,
      [op |-> "extractcs", obj |-> "c1", from |-> "par2", label |-> label, index |-> 1],
-     [op |-> "verifycs", obj |-> "c1", parent |-> "par2", form |-> form, verifiers |-> <<V(alg2, "builtin")>>] @@ x >>
+     [op |-> "verifycs", obj |-> "c1", parent |-> "par2", form |-> form, verifiers |-> <<V(alg2, "builtin")>>] @@ x,
+     [op |-> "extractcs", obj |-> "c2", from |-> "par2", label |-> label, index |-> 2],
+     [op |-> "verifycs", obj |-> "c2", parent |-> "par2", form |-> form, verifiers |-> <<V(alg, kk)>>] @@ x >>
 Cs0Prog(pk, form, label, P, U, pay, alg, kk, x) ==
   << [op |-> "new", obj |-> "par", kind |-> pk, m |-> Parent(pk, P, U, pay)],
      [op |-> "countersign0", obj |-> "", parent |-> "par", form |-> form, signers |-> <<S(alg, kk)>>, buf |-> "z"] @@ x,
@@ -163,6 +168,9 @@ Prog ==
     [] st.flow = "cs" -> CsProg(st.kind, st.form, IF st.kind = "sign1" THEN 11 ELSE 7, IF st.h = 1 THEN <<>> ELSE P, <<>>, pay, st.alg, st.kk, st.x)
     [] st.flow = "cslist" -> CsListProg(st.kind, st.form, IF st.kind = "sign1" THEN 11 ELSE 7, IF st.h = 1 THEN <<>> ELSE P, <<>>, pay, st.alg, st.kk, st.x)
     [] st.flow = "cs0" -> Cs0Prog(st.kind, st.form, IF st.kind = "sign1" THEN 12 ELSE 9, IF st.h = 1 THEN <<>> ELSE P, <<>>, pay, st.alg, st.kk, st.x)
+\* header shape 8 turns the maps of the message under construction into nil maps
+NilProg == [i \in 1..Len(Prog) |-> IF st.h = 8 /\ Prog[i].op \in {"new", "sign1helper", "sign1untaggedhelper"} /\ (Prog[i].op # "new" \/ Prog[i].obj = "m")
+                                    THEN [Prog[i] EXCEPT !.m = MaybeNil(Prog[i].m, 8)] ELSE Prog[i]]
 Emit == st.phase # 3 \/
-  PrintT(<<"CASE", ToJson([flow |-> st.flow, kind |-> st.kind, alg |-> st.alg, kk |-> st.kk, h |-> st.h, n |-> st.n, steps |-> Prog])>>)
+  PrintT(<<"CASE", ToJson([flow |-> st.flow, kind |-> st.kind, alg |-> st.alg, kk |-> st.kk, h |-> st.h, n |-> st.n, steps |-> NilProg])>>)
 =============================================================================
